@@ -234,6 +234,23 @@ func checkC02(c *Ctx) {
 		}
 	})
 	replayers["C02/indexed"] = replayers["C02/programs"]
+	c.Section("C02/sizes", map[string]interface{}{"sizes": "every n in 0..70", "shapes": len(sizeShapes)}, 71*len(sizeShapes), func(i int, w *Worker) {
+		n, sh := i/len(sizeShapes), i%len(sizeShapes)
+		w.Eval()
+		f, _ := sizeShapes[sh].Mk(n, 0)
+		var dt string
+		if f == "" {
+			a0, a1 := redact.Sprint(func() []interface{} { _, a := sizeShapes[sh].Mk(n, 0); return a }()...), redact.Sprint(func() []interface{} { _, a := sizeShapes[sh].Mk(n, 1); return a }()...)
+			if a0.Redact() != a1.Redact() {
+				dt = fmt.Sprintf("Sprint with %d operands: %q | %q redact to %q | %q", n, a0, a1, a0.Redact(), a1.Redact())
+			}
+		} else {
+			dt = c02Run(f, func(v int) []interface{} { _, a := sizeShapes[sh].Mk(n, v); return a }, w.SeenS)
+		}
+		if dt != "" {
+			w.Fail("sizes:"+sizeShapes[sh].Name, map[string]interface{}{"N": n, "Shape": sh}, dt)
+		}
+	})
 	md := midDirectives()
 	pv := c02PairVals()
 	nd := md.Size()
